@@ -282,8 +282,46 @@ def check_e2e(typ, desc):
         close_world(w)
 
 
+def check_e2e_multi(typ, descs):
+    """one simulator with several models: every model is classified from its own description (no
+    carry-over between the models of a simulator)"""
+    from mvf.simple_sim import quiet_world, close_world
+    case = {"kind": "e2e_multi", "type": typ, "descs": descs}
+    wants = []
+    for d in descs:
+        g = lambda k, d=d: tuple(d[k]) if k in d else None  # noqa
+        wants.append(expected(g("attrs"), g("trigger"), g("non-trigger"), g("persistent"), g("non-persistent"),
+                              d.get("any_inputs"), typ))
+    meta = {"api_version": "3.0", "type": typ, "models": {f"M{i}": d for i, d in enumerate(descs)}}
+    w = quiet_world()
+    try:
+        try:
+            f = w.start("Meta", sim_id="S", meta=meta)
+        except ValueError:
+            if any(x is None for x in wants):
+                return []
+            return [Failure("C12.rejected_consistent", "C12.rejected_consistent|e2e_multi", f"start rejected {case}", case)]
+        except Exception as e:  # noqa
+            return [Failure("C12.crash", "C12.crash|e2e_multi", f"start: {type(e).__name__}: {e}; {case}", case)]
+        if any(x is None for x in wants):
+            return [Failure("C12.accepted_inconsistent", "C12.accepted_inconsistent|e2e_multi",
+                            f"model #{[i for i, x in enumerate(wants) if x is None]} must be rejected; {case}", case)]
+        for i, want in enumerate(wants):
+            mm = f.models[f"M{i}"]
+            gm = (members(mm.measurement_inputs), members(mm.event_inputs),
+                  members(mm.measurement_outputs), members(mm.event_outputs))
+            if gm != want:
+                return [Failure("C12.wrong_classification", "C12.wrong_classification|e2e_multi",
+                                f"model M{i}: {gm} != {want}; {case}", case)]
+        return []
+    finally:
+        close_world(w)
+
+
 def check_case(case, acc):
     k = case["kind"]
+    if k == "e2e_multi":
+        return acc.triage(check_e2e_multi(case["type"], case["descs"]))
     if k == "desc":
         d = case["desc"]
         g = lambda key: tuple(d[key]) if key in d else None  # noqa
@@ -385,6 +423,27 @@ def shard(prop, tier, seed, shard, nshards):
 
     ne2e = (240 if tier == "quick" else 3200) // nshards + 1
     core.drive(e2e(), hcheck, acc, ne2e, seed * 1000 + 500 + shard)
+
+    @st.composite
+    def e2e_multi(draw):
+        base = draw(e2e())
+        descs = [base["desc"]]
+        for _ in range(draw(st.integers(1, 2))):
+            other = draw(st.one_of(e2e().map(lambda c: c["desc"]), st.just(None)))
+            if other is None:
+                # the same lists, another any_inputs flag / one list changed: near-duplicates are the hard case
+                other = dict(base["desc"])
+                mod = draw(st.sampled_from(["any_inputs", "attrs", "trigger"]))
+                if mod == "any_inputs":
+                    other["any_inputs"] = not other.get("any_inputs", False)
+                elif mod == "attrs":
+                    other["attrs"] = draw(st.lists(st.sampled_from("abc"), unique=True, max_size=3).map(sorted))
+                else:
+                    other["trigger"] = draw(st.lists(st.sampled_from("abc"), unique=True, max_size=3).map(sorted))
+            descs.append(other)
+        return {"kind": "e2e_multi", "type": base["type"], "descs": descs}
+
+    core.drive(e2e_multi(), hcheck, acc, ne2e, seed * 1000 + 700 + shard)
     return acc
 
 
